@@ -89,8 +89,7 @@ const CRITICAL: [&[u8; 4]; 7] = [b"IHDR", b"PLTE", b"tRNS", b"IDAT", b"IEND", b"
 /// C07 predicate on (input chunks, policy, output chunks)
 fn judge_c07(case: &Case, inp: &Decoded, out: &Decoded, st: &mut Stats) {
     let replay = case.replay_json();
-    let ox = case.opts.to_oxi();
-    let keeps = |n: &[u8; 4]| oxipng::verif::strip_keep(&ox.strip, n);
+    let keeps = |n: &[u8; 4]| spec_keeps(&case.opts.strip, n);
     let is_aux = |c: &RChunk| !CRITICAL.contains(&&c.name) && &c.name != b"acTL";
     let in_first_idat = inp.chunks.iter().position(|c| &c.name == b"IDAT").unwrap();
     let out_first_idat = out.chunks.iter().position(|c| &c.name == b"IDAT").unwrap();
@@ -101,7 +100,7 @@ fn judge_c07(case: &Case, inp: &Decoded, out: &Decoded, st: &mut Stats) {
     for (i, c) in inp.chunks.iter().enumerate() {
         if !is_aux(c) { continue; }
         if !keeps(&c.name) { continue; }
-        if &c.name == b"caBX" && oxipng::verif::is_c2pa(c.name, &c.data) { continue; }
+        if &c.name == b"caBX" && spec_is_c2pa(&c.data) { continue; }
         if header_changed && matches!(&c.name, b"bKGD" | b"sBIT" | b"hIST") { continue; }
         if gray_changed && matches!(&c.name, b"sRGB" | b"iCCP") { continue; }
         expected.push((c, i < in_first_idat));
@@ -168,8 +167,7 @@ fn judge_c07(case: &Case, inp: &Decoded, out: &Decoded, st: &mut Stats) {
 /// C14 predicate
 fn judge_c14(case: &Case, inp: &Decoded, out: &Decoded, st: &mut Stats) {
     let replay = case.replay_json();
-    let ox = case.opts.to_oxi();
-    let keeps = |n: &[u8; 4]| oxipng::verif::strip_keep(&ox.strip, n);
+    let keeps = |n: &[u8; 4]| spec_keeps(&case.opts.strip, n);
     let stripping = case.opts.strip != HStrip::None;
     let has = |d: &Decoded, n: &[u8; 4]| d.chunks.iter().any(|c| &c.name == n);
     let gray = |ct: u8| ct == 0 || ct == 4;
@@ -182,7 +180,7 @@ fn judge_c14(case: &Case, inp: &Decoded, out: &Decoded, st: &mut Stats) {
         }
         if has(inp, b"iCCP") && keeps(b"iCCP") {
             // conversion with an embedded profile: allowed only if the profile was replaced/dropped as documented
-            let recognised = profile(inp).and_then(|p| oxipng::verif::srgb_rendering_intent(&p)).is_some();
+            let recognised = profile(inp).and_then(|p| spec_srgb_intent(&p)).is_some();
             let may_replace = stripping && keeps(b"sRGB");
             if !(may_replace && (recognised || has(inp, b"sRGB"))) {
                 st.fail("icc-gray-conversion", "image with a kept ICC profile was converted between grayscale and colour".into(), replay.clone());
@@ -201,7 +199,7 @@ fn judge_c14(case: &Case, inp: &Decoded, out: &Decoded, st: &mut Stats) {
         } else {
             st.count("icc_replaced_or_dropped");
             let may_replace = stripping && keeps(b"sRGB");
-            let intent = profile(inp).and_then(|p| oxipng::verif::srgb_rendering_intent(&p));
+            let intent = profile(inp).and_then(|p| spec_srgb_intent(&p));
             if !may_replace {
                 st.fail("icc-dropped", "ICC profile replaced or dropped although stripping is off or sRGB is not kept".into(), replay.clone());
             } else if !has(inp, b"sRGB") {
@@ -218,8 +216,7 @@ fn judge_c14(case: &Case, inp: &Decoded, out: &Decoded, st: &mut Stats) {
 /// C10 predicate
 pub fn judge_c10(case: &Case, inp: &Decoded, out: &Decoded, st: &mut Stats) {
     let replay = case.replay_json();
-    let ox = case.opts.to_oxi();
-    let keeps = |n: &[u8; 4]| oxipng::verif::strip_keep(&ox.strip, n);
+    let keeps = |n: &[u8; 4]| spec_keeps(&case.opts.strip, n);
     if !(keeps(b"acTL") && keeps(b"fcTL") && keeps(b"fdAT")) {
         if !keeps(b"acTL") && !keeps(b"fcTL") && !keeps(b"fdAT") {
             st.count("animation_stripped");
@@ -361,8 +358,7 @@ pub fn oracle(ctx: &mut Ctx) {
         let bytes = match &out {
             Outcome::Panic => { st.fail("panic", "optimize_from_memory panicked".into(), case.replay_json()); continue; }
             Outcome::Err(e) => {
-                let ox = case.opts.to_oxi();
-                if has_c2pa && case.opts.strip != HStrip::None && oxipng::verif::strip_keep(&ox.strip, b"caBX") {
+                if has_c2pa && case.opts.strip != HStrip::None && spec_keeps(&case.opts.strip, b"caBX") {
                     st.count("c2pa_refused");
                 } else if has_c2pa {
                     st.fail("c2pa-rule", format!("call failed ({}) although the manifest is stripped or the policy is the default", e), case.replay_json());
@@ -374,8 +370,7 @@ pub fn oracle(ctx: &mut Ctx) {
             Outcome::Ok(b) => b,
         };
         if has_c2pa {
-            let ox = case.opts.to_oxi();
-            if case.opts.strip != HStrip::None && oxipng::verif::strip_keep(&ox.strip, b"caBX") {
+            if case.opts.strip != HStrip::None && spec_keeps(&case.opts.strip, b"caBX") {
                 st.fail("c2pa-rule", "a policy that keeps the C2PA manifest did not make the call fail".into(), case.replay_json());
                 continue;
             }
@@ -394,7 +389,7 @@ pub fn oracle(ctx: &mut Ctx) {
             o2.strip = gen_strip(&mut rng, &case.enc);
             o2.force = false;
             let case2 = Case { img: case.img.clone(), class: format!("{} stage2", case.class), enc: case.enc.clone(), input: bytes.clone(), opts: o2 };
-            let keeps_c2pa = { let ox = case2.opts.to_oxi(); case2.opts.strip != HStrip::None && oxipng::verif::strip_keep(&ox.strip, b"caBX") };
+            let keeps_c2pa = case2.opts.strip != HStrip::None && spec_keeps(&case2.opts.strip, b"caBX");
             if !(dec.chunks.iter().any(|c| &c.name == b"caBX") && keeps_c2pa) {
                 match run_case(&case2.input, &case2.opts) {
                     Outcome::Ok(b2) => match decode(&b2) {
